@@ -178,25 +178,63 @@ def high_probe(chk, d):
             return
 
 
+def tear_probe(chk, d, quick):
+    """Atomic accessors across threads under both byte-order settings and both compilers (harness/endian_tear_probe.c): no torn value is
+    ever loaded, rmw.add hands out every old value exactly once, sub / cmpxchg loops conserve."""
+    rounds = 200000 if quick else 3000000
+    for cc in ('gcc', 'clang'):
+        for tag, defs in (('le', []), ('be', ['-DWASM_ENDIAN=1'])):
+            for opt in (['-O2'] if quick else ['-O2', '-O0']):
+                exe = os.path.join(d, 'tear-%s-%s%s' % (cc, tag, opt))
+                r = env.run([cc, opt, '-g', '-w', '-DWASM_THREADS_PTHREADS'] + defs + ['-I', e2e.base_include(), os.path.join(env.VERIF, 'harness', 'endian_tear_probe.c'),
+                             '-o', exe, '-lpthread', '-lm'], timeout=300)
+                if r.rc != 0:
+                    chk.violation('C19:compile:tear-probe:%s:%s' % (cc, tag), 'atomic tear probe does not build (%s %s %s): %s' % (cc, opt, tag, r.err[-1200:]))
+                    continue
+                for rep in range(2 if quick else 6):
+                    rr = env.run([exe, str(env.SEED + rep), str(rounds)], timeout=600)
+                    files = {'cmd.txt': '%s %s %s endian_tear_probe.c; ./probe %d %d' % (cc, opt, ' '.join(defs), env.SEED + rep, rounds), 'out.txt': rr.out[-4000:], 'stderr.txt': rr.err[-2000:]}
+                    if rr.timeout:
+                        chk.inconclusive('tear probe timed out (%s %s %s)' % (cc, opt, tag))
+                        continue
+                    done = [l for l in rr.out.splitlines() if l.startswith('DONE')]
+                    if rr.rc != 0 or not done:
+                        chk.violation('C19:tear-probe:crash:%s:%s' % (cc, tag), 'atomic tear probe died (rc %s) built with %s %s for %s byte order' % (rr.rc, cc, opt, tag), files)
+                        continue
+                    kv = dict(x.split('=') for x in done[0].split()[1:])
+                    chk.ev(int(kv['loads']))
+                    chk.distinct(('tear', cc, tag, opt, rep))
+                    chk.observe('tear_probe_atomic_loads_%s_%s' % (cc, tag), int(kv['loads']))
+                    if int(kv['torn']):
+                        t = [l for l in rr.out.splitlines() if l.startswith('T ')][0].split()
+                        chk.violation('C19:atomic-load-torn:%s:%s' % (tag, t[2]), '%s build (%s %s): %s returned %s, a byte-wise mix of two stored values (%s torn loads of %s)' % (
+                            tag, cc, opt, t[2], t[3], kv['torn'], kv['loads']), files)
+                    if int(kv['count_bad']):
+                        c = [l for l in rr.out.splitlines() if l.startswith('C ')][0]
+                        chk.violation('C19:atomic-rmw-conservation:%s' % tag, '%s build (%s %s): %s (%s failures)' % (tag, cc, opt, c[2:], kv['count_bad']), files)
+
+
 def main(chk):
     quick = chk.tier == 'quick'
     d = env.subdir('c19')
     exes = {}
-    for tag, defs in (('le', []), ('be', ['-DWASM_ENDIAN=1'])):
-        exe = os.path.join(d, 'probe-' + tag)
+    for cc in ('gcc', 'clang'):
+      for tag, defs in (('le', []), ('be', ['-DWASM_ENDIAN=1'])):
+        exe = os.path.join(d, 'probe-%s-%s' % (cc, tag))
         # UBSan alignment is off: the BE macros use typed pointers by design and C19 says nothing about alignment
-        r = env.run(['gcc', '-O1', '-g', '-w', '-fsanitize=address', '-DWASM_THREADS_PTHREADS'] + defs + ['-I', e2e.base_include(),
+        r = env.run([cc, '-O1', '-g', '-w', '-fsanitize=address', '-DWASM_THREADS_PTHREADS'] + defs + ['-I', e2e.base_include(),
                      os.path.join(env.VERIF, 'harness', 'endian_probe.c'), '-o', exe, '-lpthread', '-lm'], timeout=300)
         if r.rc != 0:
-            chk.violation('C19:compile:%s' % tag, 'endian probe does not build (%s): %s' % (tag, r.err[-1500:]))
+            chk.violation('C19:compile:%s' % tag, 'endian probe does not build (%s %s): %s' % (cc, tag, r.err[-1500:]))
             return
-        exes[tag] = exe
+        exes[(cc, tag)] = exe
     nb = 8 if quick else 64
     per = 200 if quick else 400
 
     def one(i):
         seed = str(env.SEED * 1000 + i)
-        return i, env.run([exes['le'], seed, str(per)], env=env.SAN_ENV, timeout=300), env.run([exes['be'], seed, str(per)], env=env.SAN_ENV, timeout=300)
+        cc = ('gcc', 'clang')[i % 2]    # the byte-swap primitives are chosen per compiler (builtins or shift-and-mask fallbacks)
+        return i, env.run([exes[(cc, 'le')], seed, str(per)], env=env.SAN_ENV, timeout=300), env.run([exes[(cc, 'be')], seed, str(per)], env=env.SAN_ENV, timeout=300)
 
     for i, rl, rb in env.pmap(one, range(nb)):
         files = {'cmd.txt': 'endian_probe %d %d (le and be builds)' % (env.SEED * 1000 + i, per), 'le.txt': rl.out[-200000:], 'be.txt': rb.out[-200000:], 'stderr.txt': (rl.err + rb.err)[-4000:]}
@@ -260,6 +298,7 @@ def main(chk):
     wait_probe(chk, d, quick)
     high_probe(chk, d)
     detection_probe(chk, d)
+    tear_probe(chk, d, quick)
     chk.observe('flavours_probed', 14 + 9 + 14 + 42 + 7, 'set')
     chk.sample({'case': 'i64_atomic_rmw16_add_u on window X (BE build) vs on R(X) (LE build): same return value, after-windows related by one 2-byte reversal'})
     # ---- module level: translated histories must give the same call results on both builds (thorough, cheap enough for quick too)
